@@ -62,7 +62,7 @@ class Harness(object):
         kw = dict(retries=0, timeout=3)
         if fault and fault[0] == 'drop-first':
             kw = dict(retries=fault[1], retry_on_empty=True, retry_on_invalid=True, backoff=0.3, timeout=3)
-        if fault and fault[0] in ('dropd-first', 'late-first'):
+        if fault and fault[0] in ('dropd-first', 'late-first', 'refuse-first', 'refusetwo-first'):
             kw = dict(timeout=3)                      # the library's default retry options
         if broadcast:
             kw['broadcast_enable'] = True
@@ -151,6 +151,13 @@ class Harness(object):
         if self.fault and self.fault[0] in ('drop-first', 'dropd-first') and self.dropped is None:
             self.dropped = p['unit'] - UNIT
             return                                   # the device misses this request: its sender times out
+        if self.fault and self.fault[0] in REFUSALS and self.dropped is None:
+            # the device dies on this request: no answer, the connection is gone, and the next attempt(s) to
+            # open a new one are refused -- a caller may be told so (ConnectionException), nobody may hang
+            self.dropped = p['unit'] - UNIT
+            line.dead.add(line.conn)
+            line.refuse = REFUSALS[self.fault[0]]
+            return
         if self.fault and self.fault[0] == 'late-first' and self.dropped is None:
             # the device answers this request only after its sender has given up
             self.dropped = p['unit'] - UNIT
@@ -196,7 +203,16 @@ class Harness(object):
                     self.log.append((t, 'end'))
                     continue
                 req = bind.to_obj(dict(m, unit=UNIT + t))         # every caller talks to its own unit
-                r = self.client.execute(req)
+                if self.fault and self.fault[0] in REFUSALS:
+                    from pymodbus.exceptions import ConnectionException
+                    try:
+                        r = self.client.execute(req)
+                    except ConnectionException as e:
+                        self.log.append((t, 'end'))
+                        self.results[t].append(('refused', e))
+                        continue
+                else:
+                    r = self.client.execute(req)
                 self.log.append((t, 'end'))
                 self.results[t].append((m, r))
         return run
@@ -245,19 +261,25 @@ def judge(acc, s, h, name, bound):
             if owner is not None and owner != tid:
                 problems.append(('overlap', 'thread %d receives inside the transaction of thread %d' % (tid, owner)))
     # every caller gets the reply to its own request
+    nref = 0
     for t, res in h.results.items():
         for m, r in res:
             if m in ('broadcast', 'poison'):
                 continue
+            if m == 'refused':
+                nref += 1
+                continue
             d = clientsim.describe(r)
             want = h.expected(m)
-            if h.fault and h.fault[0] in ('drop-first', 'dropd-first', 'late-first') and h.fault[1] == 0 and h.dropped == t and d[0] == 'error' and not h.__dict__.get('_excused'):
+            if h.fault and h.fault[0] in ('drop-first', 'dropd-first', 'late-first', 'refuse-first', 'refusetwo-first') and h.fault[1] == 0 and h.dropped == t and d[0] == 'error' and not h.__dict__.get('_excused'):
                 h._excused = True                    # the one request the device missed, no retry configured: an error object is the answer
                 continue
             if d[0] != 'response' or d[2] != want:
                 problems.append(('wrong-reply', 'thread %d asked %s and got %r (expected %s)' % (t, pdu.encode(m).hex(), d[:3], want.hex())))
         if s.outcome == 'ok' and len(res) != len(h.requests[t]):
             problems.append(('lost-call', 'thread %d finished %d of %d calls' % (t, len(res), len(h.requests[t]))))
+    if nref > h.line.refused:
+        problems.append(('refused', '%d callers were told the connection failed, %d connection attempts were refused' % (nref, h.line.refused)))
     acc.add('wire_orders', (name, tuple(tid for tid, op in h.log if op in ('send', 'write', 'sendto'))))
     seen = set()
     for what, msg in problems:
@@ -284,7 +306,7 @@ def parse_name(name):
     if '+drop' in head and '+dropd' not in head:
         head, r = head.split('+drop')
         fault = ('drop-first', int(r))
-    for tag in ('dropd', 'late'):
+    for tag in ('dropd', 'late', 'refusetwo', 'refuse'):
         if '+' + tag in head:
             head = head.replace('+' + tag, '')
             fault = (tag + '-first', 0)
@@ -297,6 +319,7 @@ def parse_name(name):
     return head.replace('+broadcast', ''), tuple(int(x) for x in sh.split('x')), '+broadcast' in head, fault
 
 
+REFUSALS = {'refuse-first': 1, 'refusetwo-first': 2}
 _CUR_SCHED = [None]
 _SCHED_CLASSES = []
 
@@ -361,6 +384,10 @@ def run(tier, seed):
         shards.append((k, (2, 2), False, 2, ('raise-first', 0)))
         shards.append((k, (2, 2), False, 2, ('dropd-first', 0)))      # an unanswered request under the default retry options
         shards.append((k, (2, 2), False, 2, ('late-first', 0)))       # ... and one answered only after its sender gave up
+        shards.append((k, (2, 2), False, 2, ('refuse-first', 0)))     # the device dies on the first request, the next connection attempt is refused
+        if tier == 'thorough':
+            shards.append((k, (2, 2), False, 2, ('refusetwo-first', 0)))
+            shards.append((k, (3, 1), False, 2, ('refuse-first', 0)))
         shards.append((k, (2, 1), False, 2, ('slow', 0)))
         shards.append((k, (3, 1), False, 2, ('slow', 0)))
         for retries in (0, 1):
